@@ -37,6 +37,7 @@ func (w *World) verifyContract(con *Contract, opts *RunOpts) (res *FuncResult) {
 	if _, ok := con.option("overflow"); ok {
 		e.overflow = true
 	}
+	_, float64FactsOn = con.option("float64facts")
 	e.sink = func(ob *Oblig) { res.Obs = append(res.Obs, ob) }
 	errSeen := map[string]bool{}
 	addErr := func(msg string) {
